@@ -115,3 +115,29 @@ func H_C02_plan_tree2() {
 	planSound(crit, []string{"x"}, genFields("d", planDoc2, "x"))
 	nd.Reach("end")
 }
+
+// negChain wraps a criterion in k negations.
+func negChain(c *ref.Crit, k int) *ref.Crit {
+	for i := 0; i < k; i++ {
+		c = &ref.Crit{Op: ref.OpNot, A: c}
+	}
+	return c
+}
+
+//verif:harness props=C02,C01,C16 tier=quick bounds="negation chains: Not^k(leaf) for k<=4 (and Not^j of an And/Or of two such chains, j<=2) over comparison leaves on x with literals nil/float{-1.5,0,2.5}, index on x; document field absent/nil/float64 (symbolic): planner ranges stay sound"
+func H_C02_plan_negchains() {
+	leaf := func(n string) *ref.Crit {
+		return negChain(genCmpLeaf(n, "x", planVal2), nd.Choice(n+".negs", 5))
+	}
+	var crit *ref.Crit
+	switch nd.Choice("shape", 3) {
+	case 0:
+		crit = leaf("a")
+	case 1:
+		crit = negChain(&ref.Crit{Op: ref.OpAnd, A: leaf("a"), B: leaf("b")}, nd.Choice("outer.negs", 3))
+	case 2:
+		crit = negChain(&ref.Crit{Op: ref.OpOr, A: leaf("a"), B: leaf("b")}, nd.Choice("outer.negs", 3))
+	}
+	planSound(crit, []string{"x"}, genFields("d", planDoc2, "x"))
+	nd.Reach("end")
+}
